@@ -1207,9 +1207,10 @@ async fn scenario_c14(seed: u64, id: u64, base: &Path, r: &mut PropReport) {
             r.inconclusive += 1;
             break 'retry_path;
         }
-        // wait for the retrier to give up (max_retry_time = 1 s) and idle
+        // wait for the retrier to give up (max_retry_time = 1 s) and idle (generously: the give-up instant is the
+        // client's own wall clock and comes late on a loaded machine)
         let mut idle = false;
-        for _ in 0..60 {
+        for _ in 0..300 {
             tokio::time::sleep(Duration::from_millis(100)).await;
             if let Some((st, _)) = tower_status(&mut plugin, &tid).await {
                 if st == "unreachable" {
@@ -1220,14 +1221,18 @@ async fn scenario_c14(seed: u64, id: u64, base: &Path, r: &mut PropReport) {
         }
         if !idle {
             r.inconclusive += 1;
-            r.note(format!("{ctx}: the retrier did not idle in 6 s"));
+            r.note(format!("{ctx}: the retrier did not idle in 30 s"));
             break 'retry_path;
         }
         tower.state.lock().unwrap().add.push_back(Beh::WrongSig);
         tower.set_up(true);
         let _ = plugin.call("retrytower", json!([tid]), 10).await;
         let mut flagged = false;
-        for _ in 0..50 {
+        for k in 0..400 {
+            if k > 0 && k % 50 == 0 {
+                // the manual retry may have been refused if the retrier was between states: ask again
+                let _ = plugin.call("retrytower", json!([tid]), 10).await;
+            }
             tokio::time::sleep(Duration::from_millis(100)).await;
             if tower_status(&mut plugin, &tid).await.map_or(false, |(st, _)| st == "misbehaving") {
                 flagged = true;
